@@ -182,6 +182,17 @@ Theorem C19_rename_first_refuted :
 Proof. exact rename_first_refuted_lemma. Qed.
 Print Assumptions C19_rename_first_refuted.
 
+(* a temporary file whose name has no dot (mkstemp's default names) is invisible to as_list:
+   a save in progress or interrupted by a crash never shows a ghost playlist *)
+Theorem C19_temp_name_not_listed : forall s, ~ In DOT s -> listed_b s = false.
+Proof. exact no_dot_not_listed_lemma. Qed.
+Print Assumptions C19_temp_name_not_listed.
+
+Theorem C19_as_list_ignores_temp : forall d tmp txt,
+  ~ In DOT tmp -> as_list ((tmp, txt) :: d) = as_list d.
+Proof. exact as_list_ignores_temp_lemma. Qed.
+Print Assumptions C19_as_list_ignores_temp.
+
 (* the rename-on-save before the fix cut the name at its last dot *)
 Theorem C19_save_old_refuted :
   exists name,
